@@ -657,6 +657,14 @@ pub fn validate(sc: &SimScenario) -> Result<(), String> {
             return Err("text placement".into());
         }
     }
+    let all: Vec<u64> = sc.targets.iter().chain(sc.bystanders.iter()).map(|t| t & !1).collect();
+    for (i, a) in all.iter().enumerate() {
+        for b in &all[i + 1..] {
+            if (*a as i128 - *b as i128).abs() < SLOT as i128 {
+                return Err(format!("function slots overlap: {a:#x} {b:#x}"));
+            }
+        }
+    }
     for lt in &sc.lifetimes {
         for op in &lt.ops {
             if op.target >= sc.targets.len() {
@@ -742,7 +750,7 @@ pub fn execute(sc: &SimScenario) -> Outcome {
             ck.viol("mapping-leaked-after-scope-exit", &["C12"], format!("{what}: injector mappings still present: {:x?}", left));
         }
         ck.verify_all(&what);
-        if !ck.out.violations.is_empty() {
+        if ck.out.violations.iter().any(|v| !v.tag.starts_with("redirect-clobbers-register")) {
             // later lifetimes would inherit the damage and be misattributed
             break;
         }
